@@ -161,6 +161,8 @@ def _gen_meas(r, nr, n):
         vals[mask] = np.nan
         if r.random() < 0.3:
             vals = vals.astype(np.float32)
+        elif not mask.any() and r.random() < 0.3:
+            vals = np.round(vals).astype(np.int64)       # integer measurement values (no NaN possible)
         out.append({'name': j % len(MEAS_NAMES), 'unit': r.randrange(len(UNITS)), 'values': vals,
                     'pattern': 'none' if not mask.any() else ('all' if mask.all() else pat)})
     return out
@@ -613,6 +615,9 @@ def _run_object(ctx, specs, ct, base, idx, r, reqs, pending, stream):
         'annread': lambda: annread(io.BytesIO(blob)),
         'from_dataset-copy': lambda: MicroscopyBulkSimpleAnnotations.from_dataset(pydicom.dcmread(io.BytesIO(blob)), copy=True),
     }
+    if idx % 4 == 1:
+        # parsing the in-memory object itself (no file in between)
+        paths['from_dataset-memory'] = lambda: MicroscopyBulkSimpleAnnotations.from_dataset(ann, copy=True)
     if idx % 3 == 0:
         paths['from_dataset-nocopy'] = lambda: MicroscopyBulkSimpleAnnotations.from_dataset(pydicom.dcmread(io.BytesIO(blob)), copy=False)
     for pname, mk in paths.items():
